@@ -136,11 +136,13 @@ class Gen:
             to_val = "        match self {\n" + "".join(f"            {name}::V{i}(x) => Val::St(vec![Val::U({i}), x.to_val()]),\n" for i in range(n)) + "        }"
             self.emit(name, f"(u{s})", "newtype-variant-enum", decl, tgen, to_val)
         else:
-            fs = self.fields(2, 3)
+            # 1..3 fields; with a single field only the struct-like form `V { g0: T }` is a structure variant
+            # (`V(T)` would be a newtype variant), and it is the shape in which the two readings of "one field" can diverge
+            fs = self.fields(1, 3)
             inner = "(" + "".join(s for s, _ in fs) + ")"
             vs, tg, tv = [], [], []
             for i in range(n):
-                if self.rng.random() < 0.5:
+                if len(fs) > 1 and self.rng.random() < 0.5:
                     vs.append(f"    V{i}(" + ", ".join(t for _, t in fs) + "),\n")
                     tg.append(f"{name}::V{i}(" + ", ".join(f"TGen::tgen(mix(seed, {j + 1}))" for j in range(len(fs))) + ")")
                     binds = ", ".join(f"a{j}" for j in range(len(fs)))
